@@ -81,7 +81,8 @@ claim('C01',
       'the cleared accumulator follows the 9-case sign table of (tick-1 rate, accel) with every '
       'case covered and the tested quantities identified modulo earlier equalities; mp.dps>=21 '
       '(>=72 bits) is stored before the first mpmath operation on every path (independence from '
-      'ambient precision); the only early return is time==0 -> (0,0); the deprecated aliases '
+      'ambient precision) and every true division runs in mpmath or between raw inputs/literals; '
+      'the only early return is time==0 -> (0,0); the deprecated aliases '
       'delegate with the right arguments. Not decided: exactness of the mpmath evaluation itself '
       '(library rounding; bound argued in DESIGN.md).',
       'Trusted: Python ast, exact Fraction polynomial arithmetic in vf/poly.py, vf/interp.py, the '
@@ -101,13 +102,18 @@ claim('C02',
       'DESIGN.md section 3, C02')
 
 claim('C03',
-      'abstract interpretation (path-enumerating decision table) + sign-case tables + closed-form identity on the returned accumulator',
+      'abstract interpretation (path-enumerating decision table) + sign-case tables + closed-form identity on the returned accumulator and on the constant-rate duration + precision/float-division dataflow rule',
       'PARTIAL: structural necessary conditions only. Decided over all ~600 abstract paths per '
       'accumulator mode: the cannot-move table over the 27 sign cases of (steps, rate, accel) '
       '(early (0,0,0) exactly for steps=0 / rate=accel=0 / steps<0 and rate<0); on every computing '
       'path the returned accumulator is the C01 polynomial of the returned duration and position, '
       'with (rate, accel) mirrored exactly on steps<0 paths; the clear rule as in C01; precision '
-      'rule; moveTimeLM delegation. NOT decided: that the duration is the first tick reaching the '
+      'rule, and every true division is evaluated in mpmath or between raw 32-bit inputs/literals '
+      '(a compound integer quotient in plain double is reported); moveTimeLM delegation; D7 for '
+      'constant-rate moves (accel = 0) the duration IS decided: it equals CEIL((2^31*pos - '
+      'accum_adj)/rate) with pos = +-steps by the sign of the rate, which is the first tick at which '
+      'the budget is reached because the accumulator is affine in the tick count. NOT decided for '
+      'accelerated moves: that the duration is the first tick reaching the '
       'budget, the position under reversal, accumulator range - root selection and rounding are '
       'out of reach of static analysis here (brute force at design time saw ~1% deviations, see '
       'DESIGN.md 4.3; nothing reports them).',
